@@ -27,7 +27,7 @@ func init() {
 			return 4000
 		},
 		Batch: func(t string) int { return 50 },
-		Floors: []string{"histories", "ops_seek", "ops_read", "target_Reader", "target_GenericReader", "target_RowGroupRows", "target_ChunkPages", "target_FileColumnPages", "target_MultiRowGroupRows", "target_NestedMultiRowGroupRows", "target_MultiRowGroupPages",
+		Floors: []string{"histories", "ops_seek", "ops_read", "ops_reset", "target_Reader", "target_GenericReader", "target_RowGroupRows", "target_ChunkPages", "target_FileColumnPages", "target_MultiRowGroupRows", "target_NestedMultiRowGroupRows", "target_MultiRowGroupPages",
 			"target_BufferRows", "target_RowRangeRows", "target_AsyncRows", "seek_into_last_returned_page", "seek_repeated_without_read", "seek_backward", "seek_to_end", "files_without_page_index", "files_v1", "files_v2"},
 		Rule: "case = (file: catalogue type incl. nested/repeated columns, v1/v2, small pages, 1..n row groups, with/without page index, ReadBufferSize 16/4096, sync/async; target reader among Reader, GenericReader, RowGroup.Rows, ColumnChunk.Pages, file-level Column.Pages, " +
 			"MultiRowGroup (flat and nested) rows and pages, buffers, row-range views, async rows; history of 5-60 ops SeekToRow(k)/Read(n) with k biased to page boundaries +-1, the last returned page, 0 and NumRows, repeated seeks without a read). " +
@@ -341,6 +341,17 @@ func runC08(c *Ctx) {
 	keys := map[string]any{"target": tg.Name()}
 	ok := !c.guard("c08.panic", keys, func() {
 		for s := 0; s < steps; s++ {
+			// readers that can be rewound: Reset puts them back at row 0 (a seek in disguise)
+			if rs, ok := tg.(*rowsTarget); ok && r.P(6) {
+				if rw, ok := rs.rr.(interface{ Reset() }); ok {
+					rw.Reset()
+					hist = append(hist, "reset")
+					c.Obs("ops_reset", 1)
+					pos = 0
+					lastWasSeek = false
+					continue
+				}
+			}
 			if r.P(45) {
 				var k int64
 				switch r.Intn(8) {
